@@ -317,7 +317,7 @@ func TestFragmentRoundTrip(t *testing.T) {
 		t.Fatal("v2 fragment format")
 	}
 	for _, bad := range []string{
-		"?OTR,1,2,abc,", "?OTR,00001,00002,abc", "?OTR,00001,00002,,", "?OTR,00001,00002,a,b,",
+		"?OTR,1,2,abc,", "?OTR,00001,00002,abc", "?OTR,00001,00002,a,b,",
 		"?OTR|0000100|00000200,00001,00002,ab,", "?OTR|0000010g|00000200,00001,00002,ab,",
 		"?OTR,00001,70000,ab,", "?OTR:00001,00002,ab,", "?OTR|00000100,00000200,00001,00002,ab,",
 	} {
